@@ -9,7 +9,7 @@ rejects it, and the executable model run on it exhibits each probed defect as a 
 -/
 namespace ChythonModel.Findings.C13
 open ChythonModel.Model ChythonModel.Model.C13 ChythonModel.Gen.CacheEffects ChythonModel.Spec.Deps
-open ChythonModel.Props.C13
+open ChythonModel.Props.C13 ChythonModel.Proofs.C13
 
 def old : Tables :=
   { fns := C13Old.fns, keys := C13Old.cachedKeys, keyReads := C13Old.keyReads, flushKeepSssr := C13Old.flushKeepSssr,
@@ -100,5 +100,50 @@ theorem hydrogens_fresh_false_new_atom :
       [(.enter 0, []), (.addAtom 0 7 none false, []), (.fixStructure 0 true, []), (.setCharge 0 6 1, []),
        (.addBond 0 4 1 1 false, []), (.exitOk 0, [])]).objs.map (fun o => (o.backup == some none, hStale o.toCore)) = [(true, [6])] := by
   decide +kernel
+
+/-! ## `HydrogensFresh_partial` is tight: both witnesses lie in its excluded class, and violate the transaction invariant
+`TxH` (on which the exit relies) at exactly the atom that ends up stale -/
+
+/-- atoms violating `TxH.ref` (not pending, stored hydrogens not those of the snapshot's attribute values) and `TxH.new`
+(unknown to the snapshot, not pending) — executable -/
+def txhViolations (o : Obj) : List Nat × List Nat :=
+  match o.backup with
+  | some (some bk) =>
+      (o.mol.ids.filter fun n => !(pend o).contains n && !(o.hs.lookup n == some (envRef bk.mol o.mol n)),
+       o.mol.ids.filter fun n => (bk.mol.atom? n).isNone && !(pend o).contains n)
+  | _ => ([], [])
+
+/-- first witness: the block contains a public `fix_structure()` (outside `blockOpS`, whatever the molecule); just before the exit the
+invariant fails at atom 6 and nowhere else, and atom 6 is the stale one afterwards -/
+theorem partial_tight_witness1 :
+    (∀ o, blockOpS o (.fixStructure 0 true) = false) ∧
+    ((runHist current (freshWorld bicyclopropyl)
+      [(.enter 0, []), (.setRadical 0 6 true, []), (.fixStructure 0 true, []), (.setRadical 0 6 false, []),
+       (.addBond 0 5 1 1 false, [])]).objs.map txhViolations) = [([6], [])] ∧
+    ((runHist current (freshWorld bicyclopropyl)
+      [(.enter 0, []), (.setRadical 0 6 true, []), (.fixStructure 0 true, []), (.setRadical 0 6 false, []),
+       (.addBond 0 5 1 1 false, []), (.exitOk 0, [])]).objs.map fun o => hStale o.toCore) = [[6]] :=
+  ⟨fun _ => rfl, by decide +kernel⟩
+
+/-- second witness: the new atom 6 is unknown to the snapshot and no longer pending after the public `fix_structure()`;
+the charge write then makes its stored hydrogens wrong -/
+theorem partial_tight_witness2 :
+    (∀ o, blockOpS o (.addAtom 0 7 none false) = false ∧ blockOpS o (.fixStructure 0 true) = false) ∧
+    ((runHist current (freshWorld ethanolEthane)
+      [(.enter 0, []), (.addAtom 0 7 none false, []), (.fixStructure 0 true, [])]).objs.map txhViolations) = [([], [6])] ∧
+    ((runHist current (freshWorld ethanolEthane)
+      [(.enter 0, []), (.addAtom 0 7 none false, []), (.fixStructure 0 true, []), (.setCharge 0 6 1, []),
+       (.addBond 0 4 1 1 false, [])]).objs.map txhViolations) = [([6], [6])] :=
+  ⟨fun _ => ⟨rfl, rfl⟩, by decide +kernel⟩
+
+/-- the same blocks without the public `fix_structure()` keep the invariant (and are fresh after the exit): the excluded
+class is not larger than the mechanism -/
+theorem partial_tight_without_fix :
+    ((runHist current (freshWorld bicyclopropyl)
+      [(.enter 0, []), (.setRadical 0 6 true, []), (.setRadical 0 6 false, []), (.addBond 0 5 1 1 false, [])]).objs.map txhViolations)
+        = [([], [])] ∧
+    ((runHist current (freshWorld ethanolEthane)
+      [(.enter 0, []), (.addAtom 0 7 none false, []), (.setCharge 0 6 1, []), (.addBond 0 4 1 1 false, []), (.exitOk 0, [])]).objs.map
+        fun o => hStale o.toCore) = [[]] := by decide +kernel
 
 end ChythonModel.Findings.C13
